@@ -185,11 +185,11 @@ class RandomQueries:
         if r.random() < nullp:
             return {'t': 'null', 'n': 0, 'd': 1, 's': '', 'l': []}
         if t == 'int':
-            return {'t': 'int', 'n': r.choice([0, 1, 2, 3, -1, 5]), 'd': 1, 's': '', 'l': []}
+            return {'t': 'int', 'n': r.choice([0, 1, 2, 3, -1, 5, 10, 12, -10, 9, 100]), 'd': 1, 's': '', 'l': []}
         if t == 'dec':
-            n, d = r.choice([(0, 1), (1, 2), (-3, 2), (9, 4), (2, 1), (1, 4)])
+            n, d = r.choice([(0, 1), (1, 2), (-3, 2), (9, 4), (2, 1), (1, 4), (21, 2), (10, 1), (-25, 2)])
             return {'t': 'dec', 'n': n, 'd': d, 's': '', 'l': []}
-        return {'t': 'str', 'n': 0, 'd': 1, 's': r.choice(['a', 'b', 'B', 'ab', '']), 'l': []}
+        return {'t': 'str', 'n': 0, 'd': 1, 's': r.choice(['a', 'b', 'B', 'ab', '', 'aB', 'b a']), 'l': []}
 
     def table(self, n):
         return [{'k': self.val('int'), 's': self.val('str'), 'v': self.val('int'), 'w': self.val('dec'),
